@@ -833,7 +833,13 @@ fn elab_instr(ctx: &C, loc: &[usize], lhs: &V, i: &Instr) -> Option<usize> {
                         log(format!("inv x{}@n{} ()->{:?}", f, me.get(), v));
                         v
                     },
-                    move |b| log(format!("note obschange n{} {}", me3.get(), b)),
+                    {
+                        let ctx3 = ctx.clone();
+                        move |b| {
+                            let stab = ctx3.state.borrow().as_ref().map_or(false, |s| s.is_stabilising());
+                            log(format!("note obschange n{} {} stab={}", me3.get(), b, stab))
+                        }
+                    },
                 )
             };
             let ix = register(ctx, &node.watch());
@@ -1189,9 +1195,12 @@ fn panic_class(msg: &str) -> &'static str {
 fn action(ctx: &C, toks: &[&str]) -> String {
     match toks {
         ["observe", n] => {
-            let ob = resolve(ctx, &[], &parse_opnd(n).unwrap()).observe();
+            let node = resolve(ctx, &[], &parse_opnd(n).unwrap());
+            let nix = node.verif_index();
+            let ob = node.observe();
             let mut obs = ctx.observers.borrow_mut();
             obs.push(vec![ob]);
+            log(format!("note observe o{} n{}", obs.len() - 1, nix));
             format!("ok o{}", obs.len() - 1)
         }
         ["cloneobs", o] => {
@@ -1533,12 +1542,27 @@ pub fn run() {
         writeln!(out, "{} read {}", ai, reads.join(" ")).unwrap();
         let state = ctx.state.borrow().as_ref().cloned();
         if let Some(state) = state {
-            for l in state.verif_snapshot() {
-                let l = l.replace(", ", ",").replace(": ", ":");
-                writeln!(out, "{} {}", ai, l).unwrap();
-            }
-            for l in state.verif_audit() {
-                writeln!(out, "{} audit {}", ai, l).unwrap();
+            // the hooks walk the representation: on a corrupted graph they may themselves hit an unwrap
+            let lines = catch_unwind(AssertUnwindSafe(|| {
+                let mut v: Vec<String> = vec![];
+                for l in state.verif_snapshot() {
+                    v.push(l.replace(", ", ",").replace(": ", ":"));
+                }
+                for l in state.verif_audit() {
+                    v.push(format!("audit {}", l));
+                }
+                v
+            }));
+            match lines {
+                Ok(v) => {
+                    for l in v {
+                        writeln!(out, "{} {}", ai, l).unwrap();
+                    }
+                }
+                Err(_) => {
+                    let msg = LAST_PANIC.with(|p| p.borrow().clone());
+                    writeln!(out, "{} audit the engine's data structures cannot be walked: {}", ai, msg.replace('\n', " ")).unwrap();
+                }
             }
         }
         ai += 1;
